@@ -63,7 +63,7 @@ def claims_of(B, items):
     return out
 
 
-def cases(tier):
+def cases(tier, seed=0):
     """(law, params) list"""
     cs = []
     dts = ['float32', 'float64']
@@ -169,7 +169,7 @@ def main():
     if a.replay:
         common.do_replay(PID, a.replay)
     t0 = time.time()
-    merged = lib.merge(lib.run_sharded('c08', 'shard', a.tier, a.seed))
+    merged = lib.merge(lib.run_pool('c08', a.tier, a.seed))
     code = lib.finish(
         PID, a.tier, a.seed, 'other', merged, t0,
         rule='one case = (semiring, dtype, law, operand representations); laws: add/mul/sub against the mathematical definition on '
